@@ -4,10 +4,10 @@ CONSTANTS
   MaxCrashes = 2
   MaxRemoveFails = 1
   MaxFaults = 1
-  BugNoDirSync = TRUE
+  BugNoDirSync = FALSE
   BugSyncBeforeCreate = FALSE
   BugLowestIterWins = FALSE
-  BugIterLate = FALSE
+  BugIterLate = TRUE
 INVARIANT Atomic
 INVARIANT StaleNeverWins
 INVARIANT ObsoleteLower
